@@ -122,6 +122,35 @@ theorem odd_is_source (ps : List (Value N)) : Stdlib.odd ps = SrcStdlib.odd ps :
   · rfl
   · cases a <;> rfl
   · cases a <;> rfl
+/-- the ten wrappers `generate_std_math_functions!` generates (the translator performs the macro_rules substitution): each is `num1` of the registered
+    `f64` method (Registry.builtin binds exactly these: `"abs" ↦ num1 NumX.abs`, …) -/
+theorem num1_cases (f : N → N) (g : List (Value N) → Except NativeError (Value N))
+    (h0 : g [] = .error (.wrongParameterCount 1)) (h1 : ∀ a, g [a] = match a with | .num x => .ok (.num (f x)) | _ => .error .wrongParameterType)
+    (h2 : ∀ a b r, g (a :: b :: r) = .error (.wrongParameterCount 1)) (ps : List (Value N)) : Stdlib.num1 f ps = g ps := by
+  rcases ps with _ | ⟨a, _ | ⟨b, r⟩⟩
+  · rw [h0]; rfl
+  · rw [h1]; cases a <;> rfl
+  · rw [h2]; cases a <;> rfl
+theorem abs_is_source (ps : List (Value N)) : Stdlib.num1 NumX.abs ps = SrcStdlib.abs ps :=
+  num1_cases _ _ rfl (fun a => by cases a <;> rfl) (fun a b r => by cases a <;> rfl) ps
+theorem arcTan_is_source (ps : List (Value N)) : Stdlib.num1 NumX.atan ps = SrcStdlib.arc_tan ps :=
+  num1_cases _ _ rfl (fun a => by cases a <;> rfl) (fun a b r => by cases a <;> rfl) ps
+theorem cos_is_source (ps : List (Value N)) : Stdlib.num1 NumX.cos ps = SrcStdlib.cos ps :=
+  num1_cases _ _ rfl (fun a => by cases a <;> rfl) (fun a b r => by cases a <;> rfl) ps
+theorem exp_is_source (ps : List (Value N)) : Stdlib.num1 NumX.exp ps = SrcStdlib.exp ps :=
+  num1_cases _ _ rfl (fun a => by cases a <;> rfl) (fun a b r => by cases a <;> rfl) ps
+theorem frac_is_source (ps : List (Value N)) : Stdlib.num1 NumX.fract ps = SrcStdlib.frac ps :=
+  num1_cases _ _ rfl (fun a => by cases a <;> rfl) (fun a b r => by cases a <;> rfl) ps
+theorem ln_is_source (ps : List (Value N)) : Stdlib.num1 NumX.ln ps = SrcStdlib.ln ps :=
+  num1_cases _ _ rfl (fun a => by cases a <;> rfl) (fun a b r => by cases a <;> rfl) ps
+theorem round_is_source (ps : List (Value N)) : Stdlib.num1 NumX.round ps = SrcStdlib.round ps :=
+  num1_cases _ _ rfl (fun a => by cases a <;> rfl) (fun a b r => by cases a <;> rfl) ps
+theorem sin_is_source (ps : List (Value N)) : Stdlib.num1 NumX.sin ps = SrcStdlib.sin ps :=
+  num1_cases _ _ rfl (fun a => by cases a <;> rfl) (fun a b r => by cases a <;> rfl) ps
+theorem sqrt_is_source (ps : List (Value N)) : Stdlib.num1 NumX.sqrt ps = SrcStdlib.sqrt ps :=
+  num1_cases _ _ rfl (fun a => by cases a <;> rfl) (fun a b r => by cases a <;> rfl) ps
+theorem trunc_is_source (ps : List (Value N)) : Stdlib.num1 NumOps.trunc ps = SrcStdlib.trunc ps :=
+  num1_cases _ _ rfl (fun a => by cases a <;> rfl) (fun a b r => by cases a <;> rfl) ps
 theorem intToHex_is_source (ps : List (Value N)) : Stdlib.intToHex ps = SrcStdlib.int_to_hex ps := by
   rcases ps with _ | ⟨a, _ | ⟨b, r⟩⟩
   · rfl
